@@ -414,7 +414,7 @@ int main(int argc, char **argv) {
             pid_t pid = fork();
             if (pid == 0) {
                 signal(SIGALRM, vf_alarm); vf_install_fault_handlers();
-                for (unsigned long long t = next; t < b; t++) { vf_sh->cur = (long)t; alarm(timeout); case_fn(IDX(t)); G->resume_cfg = 0; G->resumes = 0; G->ncrashed = 0; }
+                for (unsigned long long t = next; t < b; t++) { vf_sh->cur = (long)t; vf_case_timer(timeout); case_fn(IDX(t)); G->resume_cfg = 0; G->resumes = 0; G->ncrashed = 0; }
                 vf_sh->done = 1; fflush(NULL); _exit(0);
             }
             int st = 0; waitpid(pid, &st, 0); vf_last_child = pid;
